@@ -18,6 +18,7 @@ CONSTANTS
   BugRetDoubleCount = FALSE
   BugArgsDoubleRelease = FALSE
   BugExcNotCounted = FALSE
+  BugRetLeavesRest = FALSE
   Depth = 45
 INVARIANT Emit
 CHECK_DEADLOCK FALSE
